@@ -240,4 +240,19 @@ PROPS = {
                  thorough=dict(checks=400, shards=16, budget_s=3400, shrink="4m")),
         ],
     ),
+    "C19": dict(
+        level="exploration",
+        text="Exploration by generated search: parameter maps (secret spellings in every case, near misses, ordinary keys; unique marker values) are submitted as remote work to an in-process "
+             "node and followed by generated histories of status/list/cancel/release commands and restarts of the work subsystem; every byte the control service sends on every connection is "
+             "scanned for the secret markers, non-secret pairs must come back unchanged, and a secret without a TLS profile must be refused before a unit directory exists.",
+        note="Trusted: the reference reading of 'begins with secret_ in any letter case' (ASCII case folding; keys that only Unicode folding maps onto the prefix are unconstrained). "
+             "The work subsystem is restarted in-process (new Workceptor + control service on the same data directory).",
+        technique="property-based testing (rapid): generated parameter maps and command histories with a taint-style oracle (secret markers must not occur in any output byte)",
+        assumptions=["the remote node is absent, so the unit stays pending and inspectable", "values are unique 16-character markers, so substring search has no false positives"],
+        parts=[
+            part("secrets", "workprops", "TestC19", "C19",
+                 quick=dict(checks=400, shards=8, budget_s=300),
+                 thorough=dict(checks=8000, shards=16, budget_s=3000, shrink="2m")),
+        ],
+    ),
 }
